@@ -16,8 +16,9 @@ import time
 from . import procs
 from .choices import hash64
 
-REPLAY_DIR = "/verif/replays"
-EVIDENCE_DIR = "/verif/evidence"
+ROOT = os.path.dirname(os.path.dirname(os.path.abspath(__file__)))  # /verif, or a snapshot of it
+REPLAY_DIR = os.path.join(ROOT, "replays")
+EVIDENCE_DIR = os.path.join(ROOT, "evidence")
 
 
 def run_seed(seed, profile, tier):
